@@ -25,6 +25,10 @@ def injections(doc, ver):
         {"path": ["x_custom_prop"], "op": "add", "kind": "custom-property:top", "value": "v"},
         {"path": ["foo_bar"], "op": "add", "kind": "custom-property:top-unprefixed", "value": 5},
         {"path": ["custom_properties"], "op": "add", "kind": "custom_properties-key", "value": {"x_hidden": 1}},
+        # a custom NAME whose value is the library's "absent" (null / empty list are dropped from every object): nothing custom is left in the
+        # result, so strict may refuse the request or build the object without it; the flag must still agree with a strict re-parse
+        {"path": ["x_void_prop"], "op": "add", "kind": "void:custom-name-with-null", "value": None},
+        {"path": ["x_void_list"], "op": "add", "kind": "void:custom-name-with-empty-list", "value": []},
     ]
     for p, val, d, owner in C.walk(doc, cname, ver):
         k = d["kind"]
@@ -274,6 +278,10 @@ def check_case(case):
         return None      # `custom_properties` is a keyword of the constructors; in a parsed document it is just an unknown key
     if kind == "custom_properties-key" and entry == "constructor":
         return fails   # the custom_properties= constructor keyword is the documented way to request custom properties
+    if not allow and kind.startswith("void:"):
+        if exc is None and getattr(res, "has_custom", False):
+            fails.append(("control-flagged-custom:%s" % kind, "strict result has_custom True"))
+        return fails
     if not allow:
         if is_control:
             if exc is not None:
